@@ -1156,6 +1156,14 @@ def b_hash(I, f, args, kw):
         if not I.ex.choose(z3.Or(z3.Not(z3.Or(PyVal.is_PL(t), PyVal.is_PDi(t))), z3.BoolVal(False))):
             I.raise_(TypeError)
         return VInt(hash_f(t))
+    if isinstance(x, VTuple):
+        # a tuple is hashable iff every component is; the value is an uninterpreted combination
+        hs = [b_hash(I, f, [it], kw) for it in x.items]       # raises TypeError on the first unhashable component
+        comb = z3.Function('tuple_hash', z3.IntSort(), z3.IntSort(), z3.IntSort())
+        acc = z3.IntVal(len(hs))
+        for h in hs:
+            acc = comb(acc, h.t)
+        return VInt(acc)
     raise Unsupported('hash of non-scalar')
 
 
